@@ -2394,9 +2394,8 @@ impl<T> TensorBase<Vec<T>, DynLayout> {
     where
         T: Clone,
     {
-        if !self.is_contiguous() {
-            self.data = self.to_vec_in(alloc);
-        }
+        // Validate the new shape before touching `self.data`, so that a
+        // mismatch leaves the tensor unchanged.
         let Ok(layout) = self.layout.reshaped_for_copy(shape) else {
             panic!(
                 "element count mismatch reshaping {:?} to {:?}",
@@ -2404,6 +2403,9 @@ impl<T> TensorBase<Vec<T>, DynLayout> {
                 shape
             );
         };
+        if !self.is_contiguous() {
+            self.data = self.to_vec_in(alloc);
+        }
         self.layout = layout;
     }
 }
